@@ -1,5 +1,6 @@
 """C14  A content sequence and its name index never disagree.
 
+Tie T: T14 (the relationship-type decision trees of __init__ / append / insert / __setitem__, regenerated).
 Tie C: random operation histories on `highdicom.sr.ContentSequence` (root / non-root SR / non-SR) are
 run on the implementation and on the Lean model (Model/SRContentSeq.lean, driver fn "history"); after
 the construction and after EVERY operation the list, every `find`, every `index` / `in` and `get_nodes`
@@ -13,7 +14,7 @@ import json
 import os
 
 PROP = 'C14'
-TARGETS = []
+TARGETS = ['T14']
 LEAN_MODULES = ['HdVerif.Props.C14']
 MODEL_MODULES = ['HdVerif.Model.SRContentSeq']
 NAMESPACE = 'HdVerif.C14'
